@@ -55,7 +55,7 @@ def run(ck: Check):
             tol = 1e-7 * scale * (1 + n * 0.01)
             ok = True
             for t, (o, gt) in enumerate(zip(out, g)):
-                if abs(o[3][1] - gt) > tol * max(1.0, abs(gt)):
+                if not (abs(o[3][1] - gt) <= tol * max(1.0, abs(gt))):
                     ok = False
                     ck.violation(dict(clause="recurrence", detector=det.name), dict(what="statistic differs from the recurrence", detector=det.name, config=cfg, stream=xs[: t + 1], got=o[3][1], expected=gt))
                     break
@@ -112,7 +112,7 @@ def run(ck: Check):
             ck.count("reset_histories")
             tol = 1e-7 * scale * 4
             for t, (o, gt) in enumerate(zip(o2, g2)):
-                if abs(o[3][1] - gt) > tol * max(1.0, abs(gt)):
+                if not (abs(o[3][1] - gt) <= tol * max(1.0, abs(gt))):
                     ck.violation(dict(clause="recurrence", detector=det.name, after_reset=True), dict(what="statistic after reset() differs from the recurrence restarted at the reset", detector=det.name, config=cfg, ops=ops[: len(seg1) + 2 + t], got=o[3][1], expected=gt))
                     break
                 if abs(gt - cfg["lambda_"]) <= tol * max(1.0, abs(gt)):
